@@ -100,7 +100,11 @@ def run(ctx, params):
             ctx.check('C11.readable', False, {'spec': params.get('library'), 'error': 'RecursionError (relation cycle) after flatten()', 'unrolled_repetition': unrolled_rep})
             return
         ctx.check('C11.readable', True)
-        info = {'spec': params.get('library'), 'n_before': len(ops), 'n_after': len(ops1), 'unrolled_repetition': unrolled_rep}
+        # fingerprint shared by F14 / F14b: the circuit was unrolled first and operations of the flat circuit still carry the group links
+        # (MultiRelationLink) of the unrolled copies, against which every further flatten() re-links
+        from qce_circuit.structure.intrf_circuit_operation import MultiRelationLink
+        info = {'spec': params.get('library'), 'n_before': len(ops), 'n_after': len(ops1), 'unrolled_repetition': unrolled_rep,
+                'group_links_survive_flatten': any(isinstance(o.relation_link, MultiRelationLink) for o in ops1)}
         same_objects = len(ops1) == len(ops) and set(map(id, ops1)) == set(map(id, ops))
         ctx.check('C11.multiset', same_objects and collections.Counter(lib.sig(o) for o in ops1) == collections.Counter(sig0), info)
         ctx.check('C11.no_composite', not has_composite(f.circuit_structure) and len(f.composite_operations) == 0, info)
